@@ -84,6 +84,9 @@ def _templates():
     add("filter-proj", [S("v1", "filter_pred", ["A"], pred=P("gt", "f", 0)), S("v2", "cols", ["v1"], cols=["k", "rid"])])
     add("filter-filter", [S("v1", "filter_pred", ["A"], pred=P("gt", "f", -1)), S("v2", "filter_pred", ["v1"], pred=P("ne", "k", 2)), S("v3", "filter_pred", ["v2"], pred={"col": "s", "f": "notnull"})])
     add("filter-or-factoring", [S("v1", "filter_pred", ["A"], pred={"or": [{"and": [P("gt", "f", 0), P("eq", "k", 1)]}, {"and": [P("gt", "f", 0), P("lt", "g", 2)]}]})])
+    add("filter-or3-partial-common", [S("v1", "filter_pred", ["A"], pred={"or": [{"or": [{"and": [P("gt", "f", 0), P("eq", "k", 1)]}, {"and": [P("gt", "f", 0), P("lt", "g", 2)]}]}, P("ge", "i", 5)]})])
+    add("filter-or3-first-in-some", [S("v1", "filter_pred", ["A"], pred={"or": [{"or": [{"and": [P("eq", "k", 1), P("gt", "f", 0)]}, P("ge", "i", 6)]}, {"and": [P("gt", "f", 0), P("lt", "g", 2)]}]}), S("v2", "cols", ["v1"], cols=["rid", "k"])])
+    add("filter-or-subsumed", [S("v1", "filter_pred", ["A"], pred={"or": [P("gt", "f", 0), {"and": [P("gt", "f", 0), P("eq", "k", 1)]}]})])
     add("filter-and-split", [S("v1", "assign", ["A"], items=[["z", {"a": "f", "op": "add", "c": 1}]]), S("v2", "filter_pred", ["v1"], pred={"and": [P("gt", "z", 0), P("le", "k", 2)]})])
     add("filter-after-assign", [S("v1", "assign", ["A"], items=[["z", {"a": "f", "op": "mul", "c": 2}]]), S("v2", "filter_pred", ["v1"], pred=P("gt", "g", 0)), S("v3", "cols", ["v2"], cols=["z", "rid"])])
     add("filter-after-rename", [S("v1", "rename", ["A"], map={"f": "f_r"}), S("v2", "filter_pred", ["v1"], pred=P("gt", "f_r", 0))])
@@ -118,6 +121,9 @@ def _templates():
     add("groupby-two-keys-tune", [S("v1", "groupby_agg", ["A"], by=["k", "s"], cols=["f", "g"], how="sum", split_out=1, sort=None)])
     add("groupby-split_out", [S("v1", "groupby_agg", ["A"], by=["k"], cols=["f", "i"], how="max", split_out=2, sort=None), S("v2", "col", ["v1"], col="i")])
     add("groupby-agg-dict-proj", [S("v1", "groupby_agg", ["A"], by=["s"], how="sum", agg={"f": "sum", "g": "mean"}, split_out=1, sort=None), S("v2", "col", ["v1"], col="g")])
+    add("groupby2-series-reset_index-proj", [S("v1", "groupby_agg", ["A"], by=["k", "s"], col="f", how="sum", split_out=1, sort=None), S("v2", "reset_index", ["v1"], drop=False), S("v3", "col", ["v2"], col="k")])
+    add("groupby-series-reset_index-proj", [S("v1", "groupby_agg", ["A"], by=["k"], col="f", how="count", split_out=1, sort=None), S("v2", "reset_index", ["v1"], drop=False), S("v3", "cols", ["v2"], cols=["f"])])
+    add("groupby-frame-reset_index-proj", [S("v1", "groupby_agg", ["A"], by=["k", "s"], cols=["f", "g"], how="max", split_out=1, sort=None), S("v2", "reset_index", ["v1"], drop=False), S("v3", "cols", ["v2"], cols=["s", "g"])])
     add("groupby-after-filter", [S("v1", "filter_pred", ["A"], pred=P("gt", "g", 0)), S("v2", "groupby_agg", ["v1"], by=["k"], col="f", how="sum", split_out=1, sort=None)])
     add("groupby-after-shuffle", [S("v1", "shuffle", ["A"], on="k", npartitions=3), S("v2", "groupby_agg", ["v1"], by=["k"], col="g", how="count", split_out=1, sort=None)])
     # --- sort / set_index / head
@@ -214,4 +220,55 @@ def c01_cases(tier):
                 shuffles = ["tasks", "disk"] if tier == "thorough" else [["tasks", "disk"][(ti + li) % 2]]
                 for sh in shuffles:
                     cases.append(_expand(t, la2, ia, lb, sh))
+    return cases
+
+
+# ----------------------------------------------------------------- sibling variants (C08/C09)
+
+SIBLINGS = [
+    ("repartition", {"npartitions": 5}, {"npartitions": 6}),
+    ("repartition", {"npartitions": 7}, {"npartitions": 9}),
+    ("repartition", {"npartitions": 1}, {"npartitions": 2}),
+    ("shuffle", {"on": "k", "npartitions": 2}, {"on": "k", "npartitions": 3}),
+    ("shuffle", {"on": "k", "npartitions": 2}, {"on": "s", "npartitions": 2}),
+    ("sort_values", {"by": ["f"], "ascending": True, "na_position": "last"}, {"by": ["f"], "ascending": False, "na_position": "last"}),
+    ("sort_values", {"by": ["i"], "ascending": True, "na_position": "last"}, {"by": ["i"], "ascending": True, "na_position": "first"}),
+    ("set_index", {"col": "i", "drop": True}, {"col": "i", "drop": False}),
+    ("set_index", {"col": "i", "drop": True}, {"col": "rid", "drop": True}),
+    ("groupby_agg", {"by": ["k"], "col": "f", "how": "sum", "split_out": 1, "sort": None}, {"by": ["k"], "col": "f", "how": "sum", "split_out": 2, "sort": None}),
+    ("groupby_agg", {"by": ["k"], "col": "f", "how": "sum", "split_out": 1, "sort": None}, {"by": ["k"], "col": "g", "how": "sum", "split_out": 1, "sort": None}),
+    ("groupby_agg", {"by": ["k"], "col": "f", "how": "mean", "split_out": 1, "sort": None}, {"by": ["k"], "col": "f", "how": "mean", "split_out": 1, "sort": None, "split_every": 2}),
+    ("drop_duplicates", {"split_out": 1}, {"split_out": 2}),
+    ("head", {"n": 2, "npartitions": 1, "how": "head"}, {"n": 3, "npartitions": 1, "how": "head"}),
+    ("head", {"n": 3, "npartitions": 1, "how": "head"}, {"n": 3, "npartitions": 2, "how": "head"}),
+    ("head", {"n": 3, "npartitions": 1, "how": "head"}, {"n": 3, "npartitions": 1, "how": "tail"}),
+    ("nlargest", {"how": "nlargest", "n": 2, "col": "i"}, {"how": "nlargest", "n": 3, "col": "i"}),
+    ("nlargest", {"how": "nlargest", "n": 2, "col": "i"}, {"how": "nsmallest", "n": 2, "col": "i"}),
+    ("partitions", {"sel": [0]}, {"sel": [1]}),
+    ("partitions", {"sel": [0, 1]}, {"sel": [1, 0]}),
+    ("filter_pred", {"pred": P("gt", "f", 0)}, {"pred": P("gt", "f", 1)}),
+    ("filter_pred", {"pred": P("gt", "f", 0)}, {"pred": P("ge", "f", 0)}),
+    ("map_partitions", {"f": "add_one_numeric"}, {"f": "identity"}),
+    ("cut", {"how": "persist"}, {"how": "legacy"}),
+    ("dropna", {"subset": ["f"]}, {"subset": ["g"]}),
+    ("loc_slice", {"lo": 2, "hi": None}, {"lo": 4, "hi": None}),
+    ("merge", {"on": ["k"], "how": "inner", "suffixes": None, "broadcast": None, "shuffle_method": "tasks"}, {"on": ["k"], "how": "left", "suffixes": None, "broadcast": None, "shuffle_method": "tasks"}),
+    ("merge", {"on": ["k"], "how": "inner", "suffixes": None, "broadcast": True, "shuffle_method": None}, {"on": ["k"], "how": "inner", "suffixes": None, "broadcast": False, "shuffle_method": "tasks"}),
+]
+
+
+def sibling_cases(tier):
+    cases = []
+    lays = LAYOUTS_A[1:6] if tier == "quick" else LAYOUTS_A
+    for si, (op, a1, a2) in enumerate(SIBLINGS):
+        for li, la in enumerate(lays):
+            if op == "loc_slice" and not la.get("known") and la["kind"] != "from_pandas":
+                continue
+            ins = ["t0", "t1"] if op == "merge" else ["t0"]
+            steps = [S("v1", op, ins, **copy.deepcopy(a1)), S("v2", op, ins, **copy.deepcopy(a2))]
+            tables = [table("t0", ROWS_A, layout=la)]
+            if op == "merge":
+                tables.append(table("t1", ROWS_B, layout={"kind": "from_map", "cuts": [2, 0, 3]}))
+            for sh in (["tasks", "disk"] if tier == "thorough" else [["tasks", "disk"][(si + li) % 2]]):
+                cases.append({"tables": tables, "steps": steps, "out": ["v2"], "config": {"shuffle": sh}, "template": f"sibling-{op}-{si}"})
     return cases
